@@ -163,6 +163,8 @@ def _scan_model():
     # every other use of the shared scanner in the package must hold the same lock
     import glob
 
+    unlocked_sites = []
+
     for path in glob.glob("/repo/pyxform/**/*.py", recursive=True):
         try:
             mod = ast.parse(open(path, encoding="utf-8").read())
@@ -185,6 +187,7 @@ def _scan_model():
                         inside = True
                 if not inside:
                     locked = False
+                    unlocked_sites.append(path[len("/repo/"):] + ":" + str(node_.lineno))
     per_thread_lexer = "threading.local" in inspect.getsource(ex) and "_EXPRESSION_LEXER.scan" not in pe_src
     shared = not per_thread_lexer
     expanded = []
@@ -193,7 +196,7 @@ def _scan_model():
             expanded += ["read"] * max(reads, 1)
         else:
             expanded.append(st)
-    return {"steps": expanded, "locked": locked, "shared": shared, "reads": reads}
+    return {"steps": expanded, "locked": locked, "shared": shared, "reads": reads, "unlocked_sites": unlocked_sites}
 
 
 def threads_run(tier, replay_call=None):
@@ -202,7 +205,7 @@ def threads_run(tier, replay_call=None):
     import z3
 
     if tier == "replay":
-        n = _stress()
+        n = _stress(direct=bool(_scan_model().get("unlocked_sites")))
         return {"verdict": "counterexample" if n else "confirmed", "replayed": bool(n), "counterexample": replay_call}
     mdl = _scan_model()
     if "write" not in mdl["steps"] or "read" not in mdl["steps"]:
@@ -257,7 +260,7 @@ def threads_run(tier, replay_call=None):
     if str(r) == "sat":
         m = s.model()
         schedule = [m[x].as_long() for x in sched if m[x] is not None]
-        bad_n = _stress()
+        bad_n = _stress(direct=bool(mdl.get("unlocked_sites")))
         out.update(verdict="counterexample", counterexample={"schedule": schedule}, replayed=bad_n > 0, detail=f"a tokenizer can read the other thread's match object: schedule {schedule}; stress replay corrupted {bad_n} scans", replay_result={"corrupted_scans": bad_n})
         return out
     out["verdict"] = "unknown"
@@ -275,7 +278,9 @@ def _unlocked_sat(mdl, tokens):
     return i_r > i_w
 
 
-def _stress():
+def _stress(direct=False):
+    """Two-thread stress replay.  direct=True: one thread calls the shared scanner without the
+    lock, which is what the unlocked call site found by the scan does."""
     import sys
     import threading
 
@@ -292,9 +297,13 @@ def _stress():
         base = [seq(t) for t in texts]
         bad = [0]
 
+        def raw(t):
+            return [(k.name, k.value, k.start, k.end) for k in ex._EXPRESSION_LEXER.scan(t)[0]]
+
         def work(i):
+            f = raw if (direct and i == 0) else seq
             for _ in range(3000):
-                if seq(texts[i]) != base[i]:
+                if f(texts[i]) != base[i]:
                     bad[0] += 1
 
         ths = [threading.Thread(target=work, args=(i,)) for i in (0, 1)]
